@@ -155,6 +155,13 @@ class XArr(_Sym):
     def astype(self, *a, **k):
         return self
 
+    @property
+    def T(self):
+        return XArr([list(col) for col in zip(*self.d)]) if self.ndim == 2 else self
+
+    def transpose(self, *a):
+        return self.T
+
     def copy(self):
         return XArr(self.d)
 
@@ -210,11 +217,54 @@ def _xarray(x, dtype=None, **k):
     raise ValueError(f"np.array({x!r}) is not modelled")
 
 
+def _rows(x):
+    a = x if isinstance(x, XArr) else _xarray(x)
+    return a.d if a.ndim == 2 else [a.d]
+
+
+def _xstack(seq, axis=0, **k):
+    """np.stack of vectors along a new first (0) or last (-1 / 1) axis"""
+    parts = [(p_ if isinstance(p_, XArr) else _xarray(p_)) for p_ in seq]
+    if any(p_.ndim != 1 for p_ in parts) or len({p_.shape for p_ in parts}) != 1:
+        raise ValueError("np.stack: all input arrays must be vectors of one length (other ranks are not modelled)")
+    rows = [p_.d for p_ in parts]
+    if axis == 0:
+        return XArr(rows)
+    if axis in (-1, 1):
+        return XArr([list(col) for col in zip(*rows)])
+    raise ValueError(f"np.stack(axis={axis}) is not modelled")
+
+
+def _xvstack(seq, **k):
+    return XArr([r for p_ in seq for r in _rows(p_)])
+
+
+def _xconcatenate(seq, axis=0, **k):
+    parts = [(p_ if isinstance(p_, XArr) else _xarray(p_)) for p_ in seq]
+    if all(p_.ndim == 1 for p_ in parts) and axis in (0, -1):
+        return XArr([v for p_ in parts for v in p_.d])
+    if all(p_.ndim == 2 for p_ in parts) and axis == 0:
+        return XArr([r for p_ in parts for r in p_.d])
+    if all(p_.ndim == 2 for p_ in parts) and axis in (1, -1):
+        return XArr([sum((p_.d[i] for p_ in parts), []) for i in range(parts[0].shape[0])])
+    raise ValueError("np.concatenate of these shapes is not modelled")
+
+
+def _xtranspose(x, *a, **k):
+    a_ = x if isinstance(x, XArr) else _xarray(x)
+    return XArr([list(col) for col in zip(*a_.d)]) if a_.ndim == 2 else a_
+
+
+_NP_EXTRA = dict(stack=_xstack, vstack=_xvstack, row_stack=_xvstack, concatenate=_xconcatenate, transpose=_xtranspose,
+                 hstack=lambda seq, **k: _xconcatenate(seq, axis=(0 if all((p_ if isinstance(p_, XArr) else _xarray(p_)).ndim == 1 for p_ in seq) else 1)),
+                 column_stack=lambda seq, **k: _xstack(seq, axis=-1))
+
+
 def tableau_by_run(src, gt, method):
     """exact abstract run of RungeKutta.get_tableau for one method name: decimal and fractional literals are the rationals they spell, arrays are exact; returns
     {'a': rows, 'b': rows, 'c': entries, 'Nstage': n, 'order': tuple} or {'__assert_false__': True} when the dispatch rejects the name"""
     from ..syminterp import SymInterp, Sym, SymRaise
-    it = SymInterp(src, None, {"np": Sym("np", array=_xarray, asarray=_xarray, zeros=_xzeros, float64="float64", float32="float32")})
+    it = SymInterp(src, None, {"np": Sym("np", array=_xarray, asarray=_xarray, zeros=_xzeros, float64="float64", float32="float32", **_NP_EXTRA)})
     it.exact = True
     it.check_asserts = True
     it.max_depth = 8
